@@ -178,8 +178,9 @@ class Hasher(Pickler):
             if any(_holds_frozenset(k) for k, _ in items):
                 raise TypeError("no total order on frozensets")
             items = sorted(items)
-        except TypeError:
-            # If keys are unorderable, sorting them using their hash. This is
+        except (TypeError, decimal.InvalidOperation):
+            # If keys are unorderable (or, like a Decimal NaN, refuse to be
+            # compared), sorting them using their hash. This is
             # slower but works in any case.
             items = sorted((hash(k), v) for k, v in items)
         # Only the ordering of the keys is attempted twice: a TypeError raised
